@@ -4,7 +4,7 @@ ENGINES = [
 ]
 ENGINES.append({"name": "E2-symx-symnp", "path": "vlib/e2.py", "serves_properties": ["C02", "C06", "C08", "C09", "C11", "C12", "C14", "C15", "C16"],
      "kind_free_text": "own z3-backed proxy-object symbolic execution (vlib/symx.py) with a lazy symbolic numpy (vlib/symnp.py) patched into toasty's modules; claims proved per path; counterexamples and vacuity twins replayed with real numpy on the solver model's inputs"})
-ENGINES.append({"name": "E3-bmc", "path": "vlib/bmc.py", "serves_properties": ["C01", "C03", "C19"],
+ENGINES.append({"name": "E3-bmc", "path": "vlib/bmc.py", "serves_properties": ["C01", "C03", "C10", "C19"],
      "kind_free_text": "z3 QF_BV bounded model checking of the process protocols: producer scripts, worker reaction tables and the dispatcher's release table are extracted from the real functions on every run (vlib/mpmodel.py), composed with a trusted model of multiprocessing.Queue/Event/Process; the schedule is a solver variable with a complete step bound; counterexample schedules are replayed on the real entry points and workers under a deterministic thread scheduler"})
 NOTES = ("Solver-based checking of the real code. Exit 0 = all explored obligations held; inconclusive obligations are printed as INCONCLUSIVE and listed in evidence, never counted as held. "
          "Exit 2 = harness error. known_findings.json lists genuine defects (open / fixed).")
@@ -106,4 +106,11 @@ CHECKS["C19"] = dict(
     technique="z3 QF_BV bounded model checking of the C03 stage models and the C01 walk model with one symbolic failing callback (fault position and schedule are solver variables); failure detection extracted by running the real entry points against failing fake processes; replay with the failure injected",
     text="For all four producer/worker stages and the parallel walk, for ALL schedules and every position of a single failing callback, z3 shows the entry point terminates by raising: it neither returns normally with an incomplete result nor waits forever. Serial modes are executed and re-raise.",
     note="a raising callback kills its worker (non-zero exit code) as multiprocessing does; trusted multiprocessing model; exactly one fault; detection points are where the real code reads exitcode / is_alive and raises.",
+)
+
+CHECKS["C10"] = dict(
+    engine="E3-bmc", ref="DESIGN.md §3.4",
+    technique="z3 QF_BV bounded model checking of N updaters following the step script extracted from the real update_image (lock acquire/read/modify/write-begin/write-end/release, lock path identity) + CrossHair on the lock path function",
+    text="For ALL interleavings of 2 (thorough: 3) concurrent updaters of one tile, z3 shows the final tile holds every contribution, no updater reads between another's write-begin and write-end, and all finish; the lock-free variant of the same model is shown to lose an update (non-vacuity). CrossHair confirms the lock path depends on the position only (any format argument, both naming schemes) and differs between tiles.",
+    note="SoftFileLock trusted as an atomic create-exclusive lock; writes modelled as two steps; replay runs the real update_image on real npy files under the solver's interleaving.",
 )
